@@ -15,7 +15,8 @@ QUICK_RUNS = 9000
 THOROUGH_RUNS = 250000
 QUICK_BUDGET = 100
 THOROUGH_BUDGET = 1500
-RULE = ('one run = one simulated hand (any variant, any automation subset, commentary on some operations) plus, per '
+RULE = ('one run = one simulated hand (any variant, any automation subset, commentary on some operations, in two thirds of the '
+        'runs no-operations - notes in the log - between the steps: fault note_interleaved) plus, per '
         'sampled history: (a) crash -> rebuild-from-log at EVERY operation boundary: the records are re-applied through '
         'the public API to a fresh un-automated state built under a different deck order; after each record the '
         'returned record and the log prefix must equal the original, at every boundary where the original was quiescent '
@@ -121,9 +122,10 @@ def run(ch, ctx):
     world = None
     run_key = run_key_of(ch)
     plan = ch.weighted('c15.plan', (3, 2, 4))        # 0: rebuild only, 1: + run twice, 2: + forks
+    chat = ch.choice('c15.chatter', (0, 2, 4))       # no-operations (notes in the log) between the steps
     forks = []
     try:
-        world = World(ch, ctx, cfg, [rec], run_key=run_key, commentary_num=2)
+        world = World(ch, ctx, cfg, [rec], run_key=run_key, commentary_num=2, chatter_num=chat)
         world.run_key = run_key
         world.unknown_burns = ch.chance('c15.unknown_burns', 1, 3)       # records then carry unknown Card objects
         if plan < 2:
@@ -205,6 +207,7 @@ def twice(ch, ctx, world, cfg, run_key):
     assert cfg2 == cfg
     rk = run_key_of(ch2)
     ch2.weighted('c15.plan', (3, 2, 4))
+    chat = ch2.choice('c15.chatter', (0, 2, 4))
     other = None
     if ch.chance('c15.interfere', 1, 2):
         # fault "interfering table": between the two executions another hand of the SAME variant with OTHER parameters is
@@ -227,7 +230,7 @@ def twice(ch, ctx, world, cfg, run_key):
                 pass
             boot.set_run_key(run_key)
         ctx.fault('game_reused')
-    w2 = World(ch2, ctx2, cfg2, [], run_key=rk, commentary_num=2, reuse_game=reuse)
+    w2 = World(ch2, ctx2, cfg2, [], run_key=rk, commentary_num=2, reuse_game=reuse, chatter_num=chat)
     w2.unknown_burns = ch2.chance('c15.unknown_burns', 1, 3)        # (the same draw as in the first execution)
     w2.run()
     if other is not None:
@@ -303,7 +306,8 @@ def run_with_forks(ch, ctx, world, forks):
             if not state_equal(clone, st):
                 raise Violation('C15.copy', f'a deep copy differs from the original right after copying: '
                                 f'{[x[0] for x in diff(snapshot(st), snapshot(clone))]}')
-            fw = World(ch, ctx, world.cfg, [], adopt=clone, profile=world.profile_name, dealer=world.dealer)
+            fw = World(ch, ctx, world.cfg, [], adopt=clone, profile=world.profile_name, dealer=world.dealer,
+                       chatter_num=world.chatter_num)
             fw.n = world.n
             fw.tick_cap = world.tick_cap
             f = Fork(kind, fw, len(st.operations))
